@@ -448,6 +448,8 @@ mod e2e {
         std::fs::create_dir_all(www.join("dir")).unwrap();
         std::fs::create_dir_all(www.join("empty")).unwrap();
         std::fs::write(r.join("secret.txt"), b"TOPSECRET-OUTSIDE-ROOT").unwrap();
+        std::fs::create_dir_all(r.join("www-private")).unwrap();
+        std::fs::write(r.join("www-private").join("secret.txt"), b"TOPSECRET-SIBLING-DIRECTORY").unwrap();
         std::fs::write(www.join("index.html"), b"<html>index</html>").unwrap();
         std::fs::write(www.join("a.txt"), (0..100u8).map(|i| b'a' + (i % 26)).collect::<Vec<u8>>()).unwrap();
         std::fs::write(www.join("page.html"), b"<html>page</html>").unwrap();
@@ -468,7 +470,9 @@ mod e2e {
             add(&format!("range {}", r), format!("GET /a.txt HTTP/1.1\r\nHost: localhost\r\nRange: {}\r\n\r\n", r));
             add(&format!("range bin {}", r), format!("GET /bin.dat HTTP/1.1\r\nRange: {}\r\n\r\n", r));
         }
-        for t in ["/../secret.txt", "/dir/../../secret.txt", "/%2e%2e/secret.txt", "/..%2Fsecret.txt", "../secret.txt", "/....//secret.txt", "/..././secret.txt", "//../secret.txt", "/dir/..", "x", ".."] {
+        for t in ["/../secret.txt", "/dir/../../secret.txt", "/%2e%2e/secret.txt", "/..%2Fsecret.txt", "../secret.txt", "/....//secret.txt", "/..././secret.txt", "//../secret.txt", "/dir/..", "x", "..",
+                  "/./../secret.txt", "/dir/./../../secret.txt", "/.//./../secret.txt", "/../www-private/secret.txt", "/dir/../../www-private/secret.txt",
+                  "/%2e%2e/secret.txt", "/.%2E/secret.txt", "/%2e%2e%2fsecret.txt", "/dir/%2e%2e/%2e%2e/secret.txt", "/..;/secret.txt", "/.../secret.txt", "/dir/..%5c..%5csecret.txt"] {
             add(&format!("traversal {}", t), format!("GET {} HTTP/1.1\r\nHost: localhost\r\n\r\n", t));
         }
         for raw in ["", "\r\n", "GET", "GET /", "GET / HTTP/9.9\r\n\r\n", "BREW / HTTP/1.1\r\n\r\n", "GET  /  HTTP/1.1\r\n\r\n", "get / http/1.1\r\n\r\n",
